@@ -66,12 +66,20 @@
 //	    are tied to the source by ObjectGen.
 //	C8  allocation.  `x := &list{val: e}` followed immediately by `x.Init(x)` (whose body must be
 //	    `ego.ptr = ptr`) appends the cell `.list e 0`; `x` is the old heap length.
+//	    `x := &object{val: m}` followed immediately by `x.Init(x)` (same condition on (*object).Init),
+//	    with `m` an empty non-nil map (`map[string]field{}`, `make(map[string]field)`, or the latter
+//	    with a capacity hint `len(…)`, which cannot be negative; capacity is not modelled), appends
+//	    the cell `.obj [] 0` in the same way (the convention of objgen.go R3).
 //	    `make([]field, n)` is `List.replicate n.toNat Val.nil` after a run-time panic for `n < 0`
 //	    (the model has no nil interface inside a slice: the placeholder is `Val.nil`; the refinement
 //	    theorem shows that every placeholder is overwritten).
 //	C9  stores and reads.  `x.val[i] = v` with `i` a range index is `h.setItems x ((h.items x).set i v)`
 //	    after a run-time panic for `i ≥ len`; `x.val[i]` (read) is `match (h.items x)[i]? with
 //	    | none => run-time panic | some t => …`; `m[k]` on a map is `lookup (h.fields x) k : Option Val`.
+//	    `x.val[k] = v` with `x` a `*object` and `k` a string is `h.setFields x (setKV (h.fields x) k v)`
+//	    (the convention of objgen.go R1; a nil map is not modelled: every cell holds a map).  The
+//	    container is read in the heap after the right-hand side: no function callable here (C6, C7)
+//	    replaces the slice / map of an existing cell by another one, they store into it.
 //	C10 loops.  `for i, v := range x.val` (either variable may be missing; `for i := 0; i < len(x.val);
 //	    i++` with `i++` / `i += 1` / `i = i + 1` and a body that does not store to that `x.val` is the
 //	    same loop) is a recursive helper `…LoopGen` over the list `h.items x` / `h.fields x`, evaluated
@@ -1188,6 +1196,22 @@ func (c *cgCtx) execAssign(st *ast.AssignStmt, rest []ast.Stmt, env *cgEnv, k cg
 		failAt(st, "unsupported assignment %s", src(st))
 	}
 	return c.eval(ix.X, env, func(xs cgVal, env *cgEnv) lnode {
+		if xs.typ == "Map" && xs.addr != "" {
+			// x.val[k] = v on the map of an object cell   (C9)
+			return c.eval(ix.Index, env, func(key cgVal, env *cgEnv) lnode {
+				if key.typ != "Str" {
+					failAt(st, "the key of the store %s is not a string", src(st))
+				}
+				return c.eval(st.Rhs[0], env, func(v cgVal, env *cgEnv) lnode {
+					if v.typ != "Field" {
+						failAt(st, "the stored value of %s is not a field", src(st))
+					}
+					fields := env.heap + ".fields " + paren(xs.addr)
+					h2 := env.heap + ".setFields " + paren(xs.addr) + " (setKV (" + fields + ") " + paren(key.lean) + " " + paren(v.lean) + ")"
+					return next(env.withHeap("(" + h2 + ")"))
+				})
+			})
+		}
 		if xs.typ != "Fields" || xs.addr == "" {
 			failAt(st, "unsupported store %s", src(st))
 		}
@@ -1285,12 +1309,13 @@ func (c *cgCtx) assertIface(st ast.Stmt, ta *ast.TypeAssertExpr, iface, x, okNam
 	})
 }
 
-// x := &list{val: e}; x.Init(x)   (C8)
+// x := &list{val: e}; x.Init(x)   /   x := &object{val: map[string]field{}}; x.Init(x)   (C8)
 func (c *cgCtx) alloc(st *ast.AssignStmt, name string, u *ast.UnaryExpr, rest []ast.Stmt, env *cgEnv, k cgK) lnode {
 	lit, ok := u.X.(*ast.CompositeLit)
-	if !ok || !isIdent(lit.Type, "list") || len(lit.Elts) != 1 {
+	if !ok || !(isIdent(lit.Type, "list") || isIdent(lit.Type, "object")) || len(lit.Elts) != 1 {
 		failAt(st, "unsupported allocation %s", src(st))
 	}
+	recv := lit.Type.(*ast.Ident).Name
 	kv, ok := lit.Elts[0].(*ast.KeyValueExpr)
 	if !ok || !isIdent(kv.Key, "val") {
 		failAt(st, "unsupported allocation %s", src(st))
@@ -1298,11 +1323,21 @@ func (c *cgCtx) alloc(st *ast.AssignStmt, name string, u *ast.UnaryExpr, rest []
 	if len(rest) == 0 || src(rest[0]) != name+".Init("+name+")" {
 		failAt(st, "expected %s.Init(%s) immediately behind %s", name, name, src(st))
 	}
-	init := c.tr.p.methods["list"]["Init"]
+	init := c.tr.p.methods[recv]["Init"]
 	if init == nil || len(init.decl.Body.List) != 1 || len(init.decl.Type.Params.List) != 1 ||
 		len(init.decl.Type.Params.List[0].Names) != 1 ||
 		src(init.decl.Body.List[0]) != init.recvName+".ptr = "+init.decl.Type.Params.List[0].Names[0].Name {
-		failAt(st, "(*list).Init is not `ego.ptr = ptr`")
+		failAt(st, "(*%s).Init is not `ego.ptr = ptr`", recv)
+	}
+	if recv == "object" {
+		if !cgEmptyMap.MatchString(src(kv.Value)) {
+			failAt(st, "the val of %s is not an empty map[string]field", src(st))
+		}
+		b := c.bindName(st, name)
+		hn := c.freshHeap()
+		env2 := env.withHeap(hn).with(name, cgVal{typ: "ObjPtr", lean: b})
+		return lLet{b, env.heap + ".length", lLet{hn, env.heap + " ++ [Cell.obj [] 0]",
+			c.execList(rest[1:], env2, k)}}
 	}
 	return c.eval(kv.Value, env, func(v cgVal, env *cgEnv) lnode {
 		if v.typ != "Fields" {
@@ -1315,6 +1350,9 @@ func (c *cgCtx) alloc(st *ast.AssignStmt, name string, u *ast.UnaryExpr, rest []
 			c.execList(rest[1:], env2, k)}}
 	})
 }
+
+// an empty, non-nil map[string]field; a capacity hint that is syntactically a length cannot be negative (C8)
+var cgEmptyMap = regexp.MustCompile(`^(map\[string\]field\{\}|make\(map\[string\]field(, len\([A-Za-z_][A-Za-z0-9_.]*\))?\))$`)
 
 // ---------------------------------------------------------------------------------------------
 // loops (C10)
